@@ -66,14 +66,67 @@ static Verdict run(const Case &c) {
     return v;
 }
 
+// part 2: several session automata side by side (the daemons keep one per interface), created and replaced at arbitrary moments, on a
+// millisecond clock. ops: 1 event (a: event, automaton) ; 2 advance (a: ms) ; 3 replace automaton (a: automaton) by a fresh one.
+// Timing rule on the millisecond clock (the automaton reads whole seconds): idle for <= t s must not count as expired, idle for
+// >= t+1 s must, in between either is right.
+static Verdict run_multi(const Case &c) {
+    Verdict v;
+    World w;
+    uint64_t now = 100000 + (uint64_t)(c.c(2) % 1000);
+    vp_set_now_ms(now);
+    int k = (int)std::max<int64_t>(1, std::min<int64_t>(c.c(1, 2), 3));
+    void *a[3] = {nullptr, nullptr, nullptr};
+    int st[3]; uint64_t last[3];
+    for (int i = 0; i < k; i++) { a[i] = br_init_session(); st[i] = 1; last[i] = now; }
+    int changes = 0, timeouts = 0, others_active = 0, replaced = 0;
+    for (size_t i = 0; i < c.ops.size() && v.ok; i++) {
+        const Op &op = c.ops[i];
+        if (op.kind == 2) { now += (uint64_t)std::max<int64_t>(0, std::min<int64_t>(op.arg(0), 100000)); vp_set_now_ms(now); continue; }
+        int x = (int)(((op.kind == 3 ? op.arg(0) : op.arg(1)) % k + k) % k);
+        if (op.kind == 3) {
+            br_automata_destroy(a[x]);
+            a[x] = br_init_session();
+            for (int j = 0; j < k; j++) if (j != x && st[j] != 1) others_active++;
+            if (br_aut_state(a[x]) != 1) v.fail(fmt("step %zu: a session automaton created while %d other(s) exist is born in state %d, expected Nascent", i, k - 1, br_aut_state(a[x])));
+            st[x] = 1; last[x] = now; replaced++;
+            continue;
+        }
+        if (op.kind != 1) continue;
+        int e = (int)(op.arg(0) & 7), t = br_aut_timeout(a[x], st[x]);
+        uint64_t el = now - last[x];
+        int got = br_switch_session(a[x], e);
+        bool must_expire = t != 0 && el >= (uint64_t)(t + 1) * 1000, may_expire = t != 0 && el > (uint64_t)t * 1000;
+        bool ok_plain = got == table_next(st[x], e), ok_expired = got == 1 || got == table_next(1, e);
+        if (must_expire ? !ok_expired : may_expire ? !(ok_plain || ok_expired) : !ok_plain)
+            v.fail(fmt("step %zu: automaton %d of %d in %s, idle %llu ms (timeout %d s), event %d: went to %d, expected %s%s", i, x, k, NAME[st[x]], (unsigned long long)el, t, e, got,
+                       must_expire ? "Nascent (expired)" : NAME[table_next(st[x], e)], may_expire && !must_expire ? " or Nascent (expired)" : ""));
+        if (must_expire) timeouts++;
+        if (got != st[x]) changes++;
+        st[x] = got; last[x] = now;
+        if (got < 0 || got > 3) { v.fail("state outside 0..3"); break; }
+        for (int j = 0; j < k && v.ok; j++)
+            if (j != x && br_aut_state(a[j]) != st[j]) v.fail(fmt("step %zu: an event for automaton %d moved automaton %d from %s to %d", i, x, j, NAME[st[j]], br_aut_state(a[j])));
+    }
+    for (int i = 0; i < k; i++) br_automata_destroy(a[i]);
+    v.nontrivial = changes >= 2 && k >= 2;
+    if (timeouts) v.cls("has-timeout");
+    if (replaced && others_active) v.cls("automaton-created-while-another-is-active");
+    v.cls(fmt("automata=%d", k));
+    return v;
+}
+static Verdict run_any(const Case &c) { return c.c(0) == 2 ? run_multi(c) : run(c); }
+
 int main(int argc, char **argv) {
     Args a = parse_args(argc, argv);
-    if (!a.replay.empty()) return replay_case(a, run);
-    zygote_start(run);   // before any code under test runs in this process
+    if (!a.replay.empty()) return replay_case(a, run_any);
+    zygote_start(run_any);   // before any code under test runs in this process
     Current::install(a.failing);
     Evidence ev;
     ev.rule = "(1) exhaustive: 4 states x session events 0..7 x elapsed {0, t-1, t, t+1, 10t} s, from a fresh automaton driven into the start state by legal events, judged by the life-cycle table of the statement "
               "(after a timeout both 'Nascent' and 'event applied from Nascent' are accepted). (2) random event/clock histories compared step by step. "
+              "(3) one to three automata side by side on a millisecond clock, replaced by fresh ones at arbitrary moments: each follows the table on its own events only, a new one is born Nascent "
+              "(idle <= t s must not expire, >= t+1 s must, in between either). "
               "non-trivial = cell whose expected state differs from the start state or a timeout-boundary cell; histories: >= 2 state changes; distinct = digest of the case";
     bool ok = true;
     {
@@ -109,6 +162,24 @@ int main(int argc, char **argv) {
             return c;
         });
         ok = run_cases(a, ev, "c15-histories", a.n(100000, 2000000), 100, gen, run);
+    }
+    if (ok) {
+        auto gen = rc::gen::exec([] {
+            Case c; c.cfg = {2, *gx::range<int64_t>(1, 3), *gx::range<int64_t>(0, 999)};
+            int n = *gx::range<int>(1, 50);
+            c.ops = *rc::gen::resize(n, rc::gen::container<std::vector<Op>>(rc::gen::exec([] {
+                Op o;
+                int r = *gx::range<int>(0, 99);
+                int k = r < 70 ? 1 : r < 92 ? 2 : 3;
+                o.kind = k;
+                if (k == 1) o.a = {*gx::range<int64_t>(0, 7), *gx::range<int64_t>(0, 2)};
+                else if (k == 2) o.a = {*gx::pick({0, 1, 100, 200, 500, 900, 999, 1000, 1001, 1100, 1900, 2000, 2100, 3000, 30000, 31000, 61000})};
+                else o.a = {*gx::range<int64_t>(0, 2)};
+                return o;
+            })));
+            return c;
+        });
+        ok = run_cases(a, ev, "c15-several-automata", a.n(100000, 2000000), 100, gen, run_any);
     }
     ev.write(a.out);
     return ok ? 0 : 1;
